@@ -82,7 +82,19 @@ def seeded_block():
                                                    m.get("change", "").replace("|", "\\|"),
                                                    m.get("needs", "").replace("|", "\\|"),
                                                    m.get("detected_by", "").replace("|", "\\|")))
-    return "\n".join(["| Seeded change | Breaks | Change | Needs, to manifest | Detected by |", "|---|---|---|---|---|"] + rows) + "\n"
+    hist = []
+    n = 0
+    for f in sorted(glob.glob(os.path.join(ROOT, "seeded", "*", "meta.json"))):
+        m = json.load(open(f))
+        n += 1
+        if m.get("history", "caught on the first run") != "caught on the first run":
+            hist.append("* `%s`: %s" % (os.path.basename(os.path.dirname(f)), m["history"]))
+    tail = ["", "The column shows the last run of each check against the change (`OK (missed)` next to a",
+            "neighbouring property means that check is not the one the change is aimed at). %d of the %d changes"
+            % (n - len(hist), n),
+            "were reported with a failing input the first time the owning check ran against them; the others, and",
+            "what was strengthened because of them:", ""] + hist
+    return "\n".join(["| Seeded change | Breaks | Change | Needs, to manifest | Detected by |", "|---|---|---|---|---|"] + rows + tail) + "\n"
 
 
 def main():
